@@ -39,3 +39,20 @@ class targeted_post_init:
     }
     raises = {"ValueError": "not in_grid(self, self.start_pos) or not in_grid(self, self.end_pos)"}
     props = ["C09"]
+
+
+L = "/verif/contracts/lemmas_src.py"
+# the real __hash__ bodies are executed symbolically inside the lemma (no contract between the lemma and the code)
+REGISTRY.inlinable.update({(F, "LatticeMaze.__hash__"), (F, "SolvedMaze.__hash__")})
+
+
+@contract(L, "hash_consistent")
+class hash_consistent:
+    """Lemma C09.hash: for all mazes a, b of all nine kind pairs, a == b implies hash(a) == hash(b).  __eq__ is used through its proved
+    contract (result == maze_equal), the two __hash__ bodies are the real ones; bytes and hash() are uninterpreted (equal arrays of one
+    dtype give equal bytes, equal objects equal hashes)."""
+    params = dict(a=_kinds(), b=_kinds())
+    ensures = {"C09.hash-consistent": "result == True"}
+    result = T.Bool
+    options = dict(no_concrete=True)
+    props = ["C09"]
